@@ -23,7 +23,7 @@ ASSUMPTIONS = [
 DEADLINE_S = {"quick": 420, "thorough": 1500}
 
 L_OPS = ["w", "pw", "ps", "pl", "pr", "pe", "r", "wb", "rb"]
-L_OPEN = ["call", "if", "foreach", "for", "while", "count", "spawn"]
+L_OPEN = ["call", "if", "foreach", "for", "while", "whilec", "count", "spawn"]
 G_OPS = ["gw", "gr", "Gw", "Gr", "nsw", "nsr", "uiw", "uir", "av"]
 G_OPEN = ["call", "withui", "withmission", "spawn", "foreach"]
 
@@ -208,7 +208,7 @@ def build(case):
                 elif kind == "if":
                     body = run(inner, Scope(scope, scope.ns), trace)
                     out.append("if (true) then {%s}" % "; ".join(body))
-                elif kind in ("foreach", "for", "while", "count"):
+                elif kind in ("foreach", "for", "while", "whilec", "count"):
                     # two iterations, each in a fresh scope (bindings of an iteration end with it); ids and
                     # values are allocated per node, so both interpretations render the same text
                     body = run(inner, Scope(scope, scope.ns), trace)
@@ -224,6 +224,13 @@ def build(case):
                             it[3]["c"] = ctr["id"]
                         c = it[3]["c"]
                         out.append("_c%d = 0; while {_c%d < 2} do {_c%d = _c%d + 1; %s}" % (c, c, c, c, "; ".join(body)))
+                    elif kind == "whilec":
+                        # the condition block binds locals of its own: they end with the condition block and are invisible to the body
+                        if "c" not in it[3]:
+                            ctr["id"] += 1
+                            it[3]["c"] = ctr["id"]
+                        c = it[3]["c"]
+                        out.append("_c%d = 0; while {private _a = 900; private _B = 901; _c%d < 2} do {_c%d = _c%d + 1; %s}" % (c, c, c, c, "; ".join(body)))
                     else:
                         out.append("{%s; true} count [0, 0]" % "; ".join(body))
                 elif kind in ("withui", "withmission"):
@@ -302,12 +309,12 @@ def signature(case, e, g, which):
 
 def spaces(tier):
     if tier == "quick":
-        return [Space("locals-1scope", gen(L_OPS, L_OPEN, 3, 1, 1), check, variant="fast", describe="locals: <=3 ops, <=1 scope, all 7 openers"),
-                Space("locals-2scopes", gen(["w", "pw", "ps", "pr", "r", "rb", "wb"], ["call", "foreach", "spawn", "while"], 3, 2, 2), check, variant="fast",
+        return [Space("locals-1scope", gen(L_OPS, L_OPEN, 3, 1, 1), check, variant="fast", describe="locals: <=3 ops, <=1 scope, all 8 openers"),
+                Space("locals-2scopes", gen(["w", "pw", "ps", "pr", "r", "rb", "wb"], ["call", "foreach", "spawn", "whilec"], 3, 2, 2), check, variant="fast",
                       describe="locals: <=3 ops, 2 scopes (nested or sequential), 4 openers"),
                 Space("globals", gen(G_OPS, ["call", "withui", "withmission", "spawn"], 3, 2, 2), check, variant="fast", describe="globals/namespaces: <=3 ops, <=2 scopes (call, with uiNamespace, with missionNamespace, spawn), depth<=2")]
-    return [Space("locals-4ops-1scope", gen(L_OPS, L_OPEN, 4, 1, 1), check, variant="fast", describe="locals: <=4 ops, <=1 scope, all 7 openers"),
-            Space("locals-3ops-2scopes", gen(L_OPS, L_OPEN, 3, 2, 2), check, variant="fast", describe="locals: <=3 ops, <=2 scopes (nested or sequential), all 7 openers"),
+    return [Space("locals-4ops-1scope", gen(L_OPS, L_OPEN, 4, 1, 1), check, variant="fast", describe="locals: <=4 ops, <=1 scope, all 8 openers"),
+            Space("locals-3ops-2scopes", gen(L_OPS, L_OPEN, 3, 2, 2), check, variant="fast", describe="locals: <=3 ops, <=2 scopes (nested or sequential), all 8 openers"),
             Space("locals-deep", gen(["w", "pw", "ps", "r"], ["call", "foreach", "spawn", "if"], 3, 3, 3), check, variant="fast", describe="locals: <=3 ops, 3 scopes, depth 3"),
             Space("globals-4ops-1scope", gen(G_OPS, G_OPEN, 4, 1, 1), check, variant="fast", describe="globals/namespaces: <=4 ops, <=1 scope"),
             Space("globals-3ops-2scopes", gen(G_OPS, G_OPEN, 3, 2, 2), check, variant="fast", describe="globals/namespaces: <=3 ops, <=2 scopes"),
